@@ -105,7 +105,7 @@ def random_patch(rng, pool, paths, nchunks):
             blocks, left = [], size
             while left > 0:
                 m = min(left, rng.choice([left, 16000, 1000, 128, 127]))
-                blocks.append([rng.random() < 0.5, m])
+                blocks.append([rng.choice([False, "dynamic", "fixed", "stored"]), m])
                 left -= m
             if paths and rng.random() < 0.6:
                 p = rng.choice(paths)
@@ -169,6 +169,23 @@ def name_cases(n0):
     return out
 
 
+def block_sweep(n0, tier):
+    """one-block (and two-block) AddFile chunks for every payload length 1..300 in every block flavour:
+    every residue of the compressed length modulo the 128-byte alignment is hit (stored deflate = length + 5)"""
+    out = []
+    n = n0
+    lens = list(range(1, 301)) + [15999, 16000, 31994, 31995]
+    for mode in (False, "stored", "fixed", "dynamic"):
+        for ln in (lens if tier == "thorough" or mode in (False, "stored") else lens[::3]):
+            data = [[(ln * 7 + 3) % 255 + 1, ln]] if mode != "dynamic" else [[1 + (ln % 200), (ln + 1) // 2], [2 + (ln % 200), ln // 2]]
+            data = [r for r in data if r[1] > 0]
+            chunks = [{"k": "FA", "path": list(b"blk/one.bin"), "off": 0, "data": data, "blocks": [[mode, ln]]},
+                      {"k": "FA", "path": list(b"blk/two.bin"), "off": 0, "data": data + [[9, 40]], "blocks": [[mode, ln], [False, 40]]}]
+            out.append(make_case(n, {"dirs": [], "files": []}, [chunks], desc={"block-sweep": [str(mode), ln]}))
+            n += 1
+    return out
+
+
 def check(run):
     rng = random.Random(run.seed)
     run.model_check("mc/MC_ZiPatch.tla", "mc/MC_ZiPatch.cfg", workers=12)
@@ -184,6 +201,8 @@ def check(run):
         cases.append(make_case(n, tree0, patches, nontrivial=sum(len(p) for p in patches) > 0))
     base = len(cases)
     cases += name_cases(base)
+    base = len(cases)
+    cases += block_sweep(base, run.tier)
     base = len(cases)
     for i in range(120 if run.tier == "quick" else 1200):
         cases.append(random_case(rng, base + i, run.tier))
